@@ -169,3 +169,14 @@ def expand_locals(funcnode, expr, depth=6):
         x.lineno = getattr(expr, "lineno", 0)
         x.col_offset = getattr(expr, "col_offset", 0)
     return Sub(depth).visit(e)
+
+
+def call_arg(call, index, name):
+    """the argument expression a call passes for the parameter at position `index` (0-based, self excluded)
+    named `name` - given positionally or by keyword; None when absent"""
+    if index < len(call.args) and not any(isinstance(a, ast.Starred) for a in call.args[:index + 1]):
+        return call.args[index]
+    for k in call.keywords:
+        if k.arg == name:
+            return k.value
+    return None
